@@ -144,6 +144,7 @@ type verifDBCall struct {
 var verifDBCalls []verifDBCall
 var verifDBOutcome int // concrete per path: 0 nil, 1 access denied, 2 access denied inside multierr, 3 not found (wrapped), 4 not changed, 5 other
 var verifDBValue *api.SecretValue
+var verifDBValueFor map[string]*api.SecretValue // per-name answers (several requests in one harness)
 var verifDBInfo *api.SecretInfo
 var verifDBVersion api.SecretVersion
 
@@ -186,6 +187,9 @@ func verifDBGet(d *db.DB, c db.Caller, name string) (*api.SecretValue, error) {
 	verifRecord("Get", c, name, 0, nil)
 	if err := verifDBErr(); err != nil {
 		return nil, err
+	}
+	if v, ok := verifDBValueFor[name]; ok {
+		return v, nil
 	}
 	return verifDBValue, nil
 }
@@ -435,6 +439,19 @@ func (c *verifBackupCtx) Err() error {
 	return nil
 }
 func (c *verifBackupCtx) Value(any) any { return nil }
+
+// context.WithoutCancel: a context that never ends, whatever happens to its parent
+type verifDetachedCtx struct{}
+
+func (verifDetachedCtx) Deadline() (time.Time, bool) { return time.Time{}, false }
+func (verifDetachedCtx) Done() <-chan struct{}       { return nil }
+func (verifDetachedCtx) Err() error                  { return nil }
+func (verifDetachedCtx) Value(any) any               { return nil }
+
+func verifStubWithoutCancel(parent context.Context) context.Context {
+	ghostLog("ctx.withoutcancel")
+	return verifDetachedCtx{}
+}
 
 func verifStubWithTimeout(parent context.Context, d time.Duration) (context.Context, context.CancelFunc) {
 	return parent, func() {}
